@@ -19,6 +19,12 @@ func init() {
 		stubs[n] = mk
 		stubEffectTable[n] = allocOnly
 	}
+	// os.Exit does not return: the path ends here (nothing after it is reachable)
+	stubs["os.Exit"] = func(x *Exec, fr *Frame, st *State, callee *ssa.Function, args []Value, pos token.Pos) Value {
+		st.Reach = TFalse
+		return Value{K: KTuple}
+	}
+	stubEffectTable["os.Exit"] = func() ModSet { return newModSet() }
 }
 
 // payload(i): the pointer an interface value wraps (uninterpreted; fixed at MakeInterface).
